@@ -171,6 +171,17 @@ def gen_workload(rng, kind, arbitrary=False, ti=False, profiles=True):
 
 
 # ---------------------------------------------------------------------------------------------- runner / parser
+def setup(ctx):
+    """rebuild, prove, compile the harness.  RES2_DEV_EXE=<binary> (development only) skips the three steps."""
+    dev = os.environ.get("RES2_DEV_EXE")
+    if dev:
+        ctx.notes.append("development run: rebuild/proof steps skipped, harness " + dev)
+        return dev
+    ctx.simgrid(["simgrid"])
+    ctx.prove()
+    return fw.build_harness("res2_load")
+
+
 def run_one(exe, lines, cfg, extra=(), timeout=60):
     cmd = [exe] + ["--cfg=" + c for c in cfg] + ["--log=root.thres:critical"] + list(extra)
     try:
